@@ -388,6 +388,42 @@ class PaintOutput(FragmentTask):
             ctx.oblige(f"post.{names[k]}.value", z3.Implies(st[k][1], to_z3(e((X, Y))) == st[k][0]), "P")
 
 
+class FieldsInSlice(Task):
+    """fields_in_slice: the names attached to the output arrays follow the order of the requested component indices (the order
+    the workers produce the arrays in), the grid_level marker (None) excluded.  Real code on bounded skeletons."""
+    reach = "S"
+    qual = MM + "fields_in_slice"
+
+    def __init__(self, prop, nf, fidxs):
+        self.prop, self.nf, self.fidxs = prop, nf, list(fidxs)
+        self.name = f"fields_in_slice[nf={nf},fidxs={self.fidxs}]"
+
+    def setup(self, ex):
+        names = [f"field{k}" for k in range(self.nf)]
+        self_ = Record("amr_kitchen.mandoline.mandoline.Mandoline", fields={n: k for k, n in enumerate(names)}, fidxs=list(self.fidxs))
+        return {"self": self_, "args": [], "names": names}
+
+    def post(self, ex, inp, out):
+        ctx = ex.ctx
+        ctx.oblige("raises-nothing", out.kind == "ret", "P", note=str(out.exc) if out.kind != "ret" else "")
+        if out.kind != "ret":
+            return
+        exp = [inp["names"][k] for k in self.fidxs if k is not None]
+        got = list(out.value) if isinstance(out.value, (list, tuple)) else out.value
+        ctx.oblige("post.names-in-the-order-of-the-requested-components", got == exp, "P", note=f"{got} vs {exp}")
+
+
+def names_tasks(prop):
+    return [FieldsInSlice(prop, 3, [2, 0]), FieldsInSlice(prop, 3, [1, None]), FieldsInSlice(prop, 4, [3, 1, 2, None]), FieldsInSlice(prop, 2, [None])]
+
+
+def names_canaries():
+    return [("fields_in_slice: names in plotfile order",
+             [("amr_kitchen/mandoline/mandoline.py", "        field_names = [all_names[idx] for idx in self.fidxs if idx is not None]",
+               "        field_names = [name for idx, name in enumerate(self.fields) if idx in self.fidxs]")],
+             ["fields_in_slice[nf=3,fidxs=[2, 0]]"])]
+
+
 def kernel_tasks2(prop, which=("ortho",)):
     out = []
     if "ortho" in which:
